@@ -67,6 +67,7 @@ pub struct Local {
     pub excluded: u64,
     pub excluded_1e3: u64,
     pub near_sum360: u64,
+    pub exact_mirror: u64,
     pub needed_envelope: u64,
     pub asym_bits: u64,
     /// largest err/tol in the sum ≥ 360 branches of CIEDE2000 (kept apart from `best`)
@@ -89,6 +90,7 @@ impl Local {
         self.excluded += o.excluded;
         self.excluded_1e3 += o.excluded_1e3;
         self.near_sum360 += o.near_sum360;
+        self.exact_mirror += o.exact_mirror;
         self.needed_envelope += o.needed_envelope;
         self.asym_bits += o.asym_bits;
         self.best_ge360 = self.best_ge360.max(o.best_ge360);
@@ -180,6 +182,16 @@ pub fn sum360_jump<T: Fl>(r: &De00) -> f64 {
     }
 }
 
+/// a2 = 2^k·a1 > 0, b2 = −2^k·b1 ≠ 0 (exactly), different chroma (k ≠ 0): hues mirrored about +a*.
+pub fn exact_mirror(x: [f64; 3], y: [f64; 3]) -> bool {
+    if !(x[1] > 0.0 && y[1] > 0.0 && x[2] != 0.0) {
+        return false;
+    }
+    let k = y[1] / x[1];
+    let pow2 = k.is_normal() && (k.to_bits() & ((1u64 << 52) - 1)) == 0;
+    pow2 && k != 1.0 && x[1] * k == y[1] && -(x[2] * k) == y[2]
+}
+
 /// CIEDE2000 expectation for a Lab or Lch pair: Sharma's formula on the T-rounded inputs; when
 /// `obs` is not within tol of that, the hull over the ±4-ulp box around the inputs.
 pub fn expect_ciede<T: Fl>(space: Space, x: [T; 3], y: [T; 3], obs: [f64; 2], l: &mut Local) -> (De00, Option<Expect>) {
@@ -203,16 +215,37 @@ pub fn expect_ciede<T: Fl>(space: Space, x: [T; 3], y: [T; 3], obs: [f64; 2], l:
             l.variant_case = Some(json!({"space": space.name(), "float": T::NAME, "input": hex(&[x[0], x[1], x[2], y[0], y[1], y[2]]), "x": to64(x), "y": to64(y), "sharma": r.de, "variant_mean_hue_sum_plus_360_over_2": v.de, "h1'": r.h1, "h2'": r.h2}));
         }
     }
-    let tol = de_tol::<T>(&r);
-    if sum360_jump::<T>(&r) > 0.0 {
+    // Exact mirror pairs (a2 = 2^k·a1 > 0, b2 = −2^k·b1): Σ = h1' + h2' is 360° *exactly* — a' = a(1+G)
+    // scales both a by the same factor and the power of two exactly, atan2 is odd in its first
+    // argument, so every implementation that forms h' by atan2 gets h2' = 360 − h1' and the sum
+    // rounds to 360. The formula's value is unambiguous there (Sharma eq. 14: Σ ≥ 360 → (Σ − 360)/2)
+    // and the allowance for "within rounding of Σ = 360°" does not apply.
+    // polar inputs: the library forms a, b from the hue in radians, so only hues h and −h (cos even,
+    // sin odd: exact) with chromas in a power-of-two ratio give exactly mirrored a, b in T
+    let mirror = if polar {
+        let (p, q) = (to64(x), to64(y));
+        p[2] == -q[2] && p[2] != 0.0 && exact_mirror(xr, yr) && exact_mirror([p[0], p[1], 1.0], [q[0], q[1], -q[1] / p[1]])
+    } else {
+        exact_mirror(xr, yr)
+    };
+    let jump = if mirror { 0.0 } else { sum360_jump::<T>(&r) };
+    let tol = de_tol::<T>(&r) - sum360_jump::<T>(&r) + jump;
+    if mirror {
+        l.exact_mirror += 1;
+    }
+    if jump > 0.0 {
         l.near_sum360 += 1;
     }
-    let class = r.case.name();
+    let class = if mirror { "mirror-sum=360" } else { r.case.name() };
     if obs.iter().all(|o| (o - r.de).abs() <= tol) {
         // a polar hue that is a multiple of 360° is h' = 0 for the reference and 360 − ε after
         // rounding: such a pair can sit in a sum ≥ 360 branch without the reference saying so
         let wraps = polar && r.case != HueCase::ZeroChroma && [r.h1, r.h2].iter().any(|h| h.min(360.0 - h) < 1e-6);
-        return (r, Some(Expect { lo: r.de, hi: r.de, tol, class, used_envelope: false, calib: !class.ends_with("sum>=360") && sum360_jump::<T>(&r) == 0.0 && !wraps }));
+        return (r, Some(Expect { lo: r.de, hi: r.de, tol, class, used_envelope: false, calib: !class.ends_with("sum>=360") && jump == 0.0 && !mirror && !wraps }));
+    }
+    if mirror {
+        // no envelope: the ±4-ulp box straddles Σ = 360° and would readmit the other branch
+        return (r, Some(Expect { lo: r.de, hi: r.de, tol, class, used_envelope: false, calib: false }));
     }
     // backward-error envelope (DESIGN §3.4)
     l.needed_envelope += 1;
